@@ -46,7 +46,7 @@ def canon(n):
 
 def validate_statuses(w, rtext, doc):
     """rule name -> list of statuses, from `validate --print-json` (definition order)"""
-    r = w.run({"k": "cli", "argv": ["validate", "-r", "{S}/r.guard", "-d", "{S}/d.json", "-p", "-S", "none"], "files": {"r.guard": rtext, "d.json": json.dumps(doc)}})
+    r = w.run({"k": "cli", "argv": ["validate", "-r", "{S}/r.guard", "-d", "{S}/d.json", "-p", "-S", "none"], "files": {"r.guard": rtext, "d.json": json.dumps(doc, ensure_ascii=False)}})      # raw characters: validate cannot read surrogate-pair escapes (known C11 finding)
     if r.get("r") != "ok":
         return None, r
     out = r["out"]
@@ -278,6 +278,12 @@ def shard(ctx):
     for t in range(n):
         doc0 = gen.gen_doc(rng)
         docs = [doc0] + [gen.gen_doc(rng) for _ in range(rng.randint(0, 3))]
+        if t % 4 == 1:
+            # a character outside the BMP: the JSON tests file spells it as a surrogate-pair escape (json.dumps default), which only a JSON reader accepts
+            for d_ in docs:
+                if isinstance(d_, dict):
+                    d_["emoji"] = "go \U0001F680"
+            ctx.res.counts["cases_with_surrogate_pair_escapes"] += 1
         rtext, names = gen_rules(rng, doc0)
         k = min(len(names), 3)
         with_exp = rng.sample(names, k)
